@@ -1961,8 +1961,27 @@ def p_instanceDeclaration(p):
                         cname),
                     parser_token=p)
             p.parser.mofcomp.compile_file(file_, ns)
-            cc = p.parser.handle.GetClass(cname, namespace=ns, LocalOnly=False,
-                                          IncludeQualifiers=True)
+            try:
+                cc = p.parser.handle.GetClass(
+                    cname, namespace=ns, LocalOnly=False,
+                    IncludeQualifiers=True)
+            except CIMError as ce2:
+                if ce2.status_code == CIM_ERR_NOT_FOUND:
+                    raise MOFDependencyError(
+                        msg=_format(
+                            "Cannot compile instance of {0!A} because its "
+                            "class does not exist in the CIM repository and "
+                            "the MOF file {1!A} found for that class on the "
+                            "search path does not define it",
+                            cname, file_),
+                        parser_token=p)
+                raise MOFRepositoryError(
+                    msg=_format(
+                        "Cannot compile instance of {0!A} because the CIM "
+                        "repository returned an error for GetClass",
+                        cname),
+                    parser_token=p,
+                    cim_error=ce2)
         else:
             raise MOFRepositoryError(
                 msg=_format(
